@@ -7,6 +7,7 @@ import (
 	"strconv"
 
 	unixfsnode "github.com/ipfs/go-unixfsnode"
+	"github.com/ipfs/go-cid"
 	"github.com/ipfs/go-unixfsnode/data"
 	"github.com/ipfs/go-unixfsnode/data/builder"
 	"github.com/ipfs/go-unixfsnode/file"
@@ -124,4 +125,13 @@ func VerifFileRoundTrip() {
 		verifrt.Reach("pb-root")
 	}
 	verifrt.Reach("end")
+}
+
+// keyLink turns a store key (link.Binary()) back into a link.
+func keyLink(key string) datamodel.Link {
+	c, err := cid.Cast([]byte(key))
+	if err != nil {
+		panic(err)
+	}
+	return cidlink.Link{Cid: c}
 }
